@@ -4,7 +4,7 @@
 export GOFLAGS=-mod=mod GOPROXY=off GOSUMDB=off GOTOOLCHAIN=local
 out=$(mktemp /tmp/verif-baseline.XXXXXX.json)
 trap 'rm -f "$out"' EXIT
-(cd /repo && go test -mod=mod -json -vet=off -count=1 -timeout 25m ./...) > "$out" 2>/dev/null
+(cd /repo && flock /tmp/mtb-ports.lock go test -mod=mod -json -vet=off -count=1 -timeout 25m ./...) > "$out" 2>/dev/null
 python3 - "$out" <<'PY'
 import json, sys
 res = {}
